@@ -640,19 +640,30 @@ def run_concurrent(ctx, res: Result):
                                                             tick_prob=0.02))
         judge(res, prog, s, items, pending, "random")
     if ctx.thorough:
-        total = 0
+        total, complete, truncated = 0, 0, []
+        cap = 4000
         for prog in small_programs():
-            n = 0
             def once(ch, prog=prog):
                 s, items, keep = run_program(prog, ch)
                 s.c16 = (items, keep)
                 return s
-            for s in ds.explore(once, preemption_bound=2, max_runs=4000):
+            n = 0
+            for s in ds.explore(once, preemption_bound=2, max_runs=cap):
                 judge(res, prog, s, s.c16[0], pending, "exhaustive<=2")
                 n += 1
+            if n >= cap:
+                # the bound-2 space of this program is larger than the cap: cover bound 1 completely as well
+                truncated.append(str(prog["producers"]))
+                for s in ds.explore(once, preemption_bound=1, max_runs=cap):
+                    judge(res, prog, s, s.c16[0], pending, "exhaustive<=1")
+                    n += 1
+            else:
+                complete += 1
             total += n
-            res.hist("exhaustive_schedules_per_program", n)
-        res.notes.append(f"thorough: all schedules with <= 2 pre-emptions of {len(small_programs())} small programs: {total} runs")
+            res.hist("explored_schedules_per_program", n)
+        res.notes.append(f"thorough: {len(small_programs())} small programs, {total} explored schedules; for {complete} programs ALL schedules "
+                         f"with <= 2 pre-emptions were run; for the others (producers {sorted(set(truncated))}) the first {cap} schedules with <= 2 "
+                         f"pre-emptions and all schedules with <= 1 pre-emption")
     compare_with_model(res, pending)
 
 
@@ -665,7 +676,10 @@ def run(ctx) -> Result:
                 "second unlocked read; (d) all ordered pairs of 13 classes x 3 src x 3 dest x 2 synthetic events; non-trivial "
                 "= distinct specs sharing the class or all field values")
     run_event_eq(ctx, res)
+    n0 = res.evaluations
     run_sequential(ctx, res, 7 if not ctx.thorough else 8)
+    res.notes.append(f"(a) exhaustive: all put/get sequences of length <= {7 if not ctx.thorough else 8} over 2 values, {res.evaluations - n0} runs "
+                     "(plain items on SkipRepeatsQueue; events differing in path / in class only on EventQueue)")
     run_concurrent(ctx, res)
     minimise(res)
     return res
